@@ -392,7 +392,10 @@ ROW_COLS = ["available_resources", "ingest_resources", "running_tasks",
             "scheduler_observation_queue", "schedule_status", "delay_offset"]
 
 
-def row_view(df, i):
+SCALED_COLS = ("observations_delayed", "delay_offset")
+
+
+def row_view(df, i, ts=None):
     r = df.iloc[i]
     out = {}
     for c in ROW_COLS:
@@ -401,7 +404,10 @@ def row_view(df, i):
             out[c] = str(v)
         else:
             fv = float(v)
-            out[c] = int(round(fv)) if abs(fv - round(fv)) < 1e-9 else fv
+            if c in SCALED_COLS and ts is not None:
+                out[c] = ts(fv)          # durations: reported in ticks
+            else:
+                out[c] = int(round(fv)) if abs(fv - round(fv)) < 1e-9 else fv
     return out
 
 
